@@ -1225,8 +1225,13 @@ impl<const MIN_ALIGN: usize> Bump<MIN_ALIGN> {
                         // It's still the same chunk, so reset the bump pointer
                         // to its original value upon entry to this method
                         // (reclaiming any alignment padding we may have
-                        // added).
-                        current_ptr.set(rewind_ptr);
+                        // added). A zero-sized result never moved the
+                        // pointer, and then we must not store to it: the
+                        // current chunk may be the shared static
+                        // `EMPTY_CHUNK`.
+                        if current_ptr.get() != rewind_ptr {
+                            current_ptr.set(rewind_ptr);
+                        }
                     } else {
                         // We allocated a new chunk for this result.
                         //
@@ -1334,8 +1339,13 @@ impl<const MIN_ALIGN: usize> Bump<MIN_ALIGN> {
                         // It's still the same chunk, so reset the bump pointer
                         // to its original value upon entry to this method
                         // (reclaiming any alignment padding we may have
-                        // added).
-                        current_ptr.set(rewind_ptr);
+                        // added). A zero-sized result never moved the
+                        // pointer, and then we must not store to it: the
+                        // current chunk may be the shared static
+                        // `EMPTY_CHUNK`.
+                        if current_ptr.get() != rewind_ptr {
+                            current_ptr.set(rewind_ptr);
+                        }
                     } else {
                         // We allocated a new chunk for this result.
                         //
